@@ -42,6 +42,7 @@ func init() {
 			{"FRM-VARIADIC", 4, ruleFrmVariadic},
 			{"LAY-FUNC", 8, ruleLayFunc},
 			{"FRM-METHOD", 3, ruleFrmMethod},
+			{"PAR-RESULTTYPE", 1, ruleParResultType},
 			{"FRM-REDEFINE", 3, ruleFrmRedefine},
 			{"FRM-PARAMSLOT", 1, ruleFrmParamSlot},
 			{"LAY-EVALORDER", 1, ruleLayEvalOrder},
